@@ -49,22 +49,27 @@ class Ref:
             self.kept[n] = k
         return k
 
-    def expect(self, n, services):
-        key = (n, services)
+    @staticmethod
+    def inwin(l, win):
+        return win is None or (win[0] <= l < win[0] + win[1]) or (win[2] <= l < win[2] + win[3])
+
+    def expect(self, n, services, win=None):
+        """win = (start0, count0, start1, count1) of the device when the frame was captured, None = all rows"""
+        key = (n, services, win)
         r = self.cache.get(key)
         if r is None:
             d = D0
             c = 0
             for i, l, w in self.lines(n):
-                if i & services:
+                if (i & services) and self.inwin(l, win):
                     d = mix64(d ^ IDH[(i, l)] ^ w)
                     c += 1
             r = (c, d)
             self.cache[key] = r
         return r
 
-    def describe(self, n, services):
-        return ['0x%x %d %016x' % (i, l, w) for i, l, w in self.lines(n) if i & services]
+    def describe(self, n, services, win=None):
+        return ['0x%x %d %016x' % (i, l, w) for i, l, w in self.lines(n) if (i & services) and self.inwin(l, win)]
 
 
 # ---------------------------------------------------------------------------------------------------------------
@@ -111,7 +116,7 @@ class Msg:
         v.update(over)
         return bytes(self.body('SERVICE_REQ', **v))
 
-    def token_req(self, prio=0, valid=1, sub_prio=0x10, min_duration=0, exp_duration=0, allow_suspend=1, **over):
+    def token_req(self, prio=1, valid=1, sub_prio=0x10, min_duration=0, exp_duration=0, allow_suspend=1, **over):
         v = {'chn_prio': prio, 'chn_profile.is_valid': valid, 'chn_profile.sub_prio': sub_prio, 'chn_profile.allow_suspend': allow_suspend,
              'chn_profile.min_duration': min_duration, 'chn_profile.exp_duration': exp_duration}
         v.update(over)
@@ -125,7 +130,9 @@ class Msg:
     def ioctl_req(self, request, arg_size, arg=b'', **over):
         v = {'request': request, 'arg_size': arg_size}
         v.update(over)
-        return bytes(self.body('CHN_IOCTL_REQ', **v)) + bytes(arg)
+        # VBIPROXY_CHN_IOCTL_REQ_SIZE(n) is sizeof(struct) + n - 1 although arg_data[] has length 0: the daemon (and the
+        # client library) take a message that ends one byte before the end of the argument as the well-formed one
+        return bytes(self.body('CHN_IOCTL_REQ', **v)) + bytes(arg)[:max(0, len(bytes(arg)) - 1)]
 
     def pid_req(self, **over):
         v = self.magics()
